@@ -696,7 +696,15 @@ pub fn run(ctx: &Ctx) {
         let (vi, tid, v) = match kind {
             0 if !string_slots.is_empty() => {
                 let (vi, tid, preserve) = string_slots[pick(string_slots.len())];
-                (vi, tid, AVal::Str(g.gen_string(preserve, None)))
+                let mut sv = g.gen_string(preserve, None);
+                // white space at the ends of a value set through the API must survive serialize + load as well
+                let k = tape.first().copied().unwrap_or(0) % 12;
+                if k < 3 {
+                    sv.insert(0, [' ', '\t', '\n'][k as usize]);
+                } else if k < 6 {
+                    sv.push([' ', '\t', '\n'][k as usize - 3]);
+                }
+                (vi, tid, AVal::Str(sv))
             }
             1 if !uint_slots.is_empty() => {
                 let (vi, tid) = uint_slots[pick(uint_slots.len())];
